@@ -159,8 +159,9 @@ def emit_calls(methods):
     o = [HEADER]
     for m in methods:
         if m.kind in ("simple", "movimm", "mem"):
-            o.append("pub fn call_%s(%s) -> Words {\n    let mut a = AssemblerArm64::new();\n    a.%s(%s);\n    words(a)\n}\n"
-                     % (m.name, m.sig(), m.name, ", ".join(m.call_args)))
+            # composite helpers emit a symbolic number of words: finalize(1) there (see support::words1)
+            o.append("pub fn call_%s(%s) -> Words {\n    let mut a = AssemblerArm64::new();\n    a.%s(%s);\n    %s(a)\n}\n"
+                     % (m.name, m.sig(), m.name, ", ".join(m.call_args), "words" if m.kind == "simple" else "words1"))
         o.append("pub fn legal_%s(%s) -> bool {\n    %s\n}\n" % (m.name, m.sig(), m.text("legal")))
         o.append("pub fn contract_%s(%s) -> bool {\n    %s\n}\n" % (m.name, m.sig(), m.text("contract")))
         if m.kind == "simple":
@@ -188,7 +189,7 @@ def decl_symbolic(m, indent="    "):
     return "\n".join(o)
 
 
-UNWIND = {"simple": 10, "movimm": 67, "mem": 67}
+UNWIND = {"simple": 8, "movimm": 66, "mem": 66}
 
 
 def emit_harnesses(methods):
@@ -244,47 +245,54 @@ def label_parts(m):
 
 
 def emit_label_calls(m):
-    """run_<m>(codes..., dir, k) -> (code bytes, byte position of the branch, byte position of label)
-       dir: 0 = forward with k real filler words, 1 = backward with k real filler words,
-            2 = forward, label bound at byte distance 4*k from the branch via set_position (far)"""
+    """run_<m>_fwd/bwd/far(codes..., k) -> (code bytes, byte position of the branch, byte position of label)
+       fwd: forward reference over k real filler words; bwd: backward reference over k real filler words;
+       far: forward reference, label bound at byte distance 4*k from the branch via set_position
+            (no filler -- the distance is symbolic over the whole range; replayed natively with real filler).
+       fwd/bwd end with finalize(1): the buffer length is symbolic there and align_to(4)'s padding loop
+       (exercised with finalize(4) by every other harness) cannot be bounded by the model checker."""
     _, call = label_parts(m)
     sig = m.sig()
-    sig = (sig + ", " if sig else "") + "dir: u8, k: u32"
+    sig = (sig + ", " if sig else "") + "k: u32"
     post = m.text("post")
-    return """pub fn run_%(n)s(%(sig)s) -> (Vec<u8>, usize, usize) {
+    return """pub fn run_%(n)s_bwd(%(sig)s) -> (Vec<u8>, usize, usize) {
     let mut a = AssemblerArm64::new();
-    let pos;
-    let target;
-    if dir == 1 {
-        a.emit_u32(%(fill)s);
-        let l = a.create_and_bind_label();
-        target = 4usize;
-        let mut i = 0u32;
-        while i < k { a.emit_u32(%(fill)s); i += 1; }
-        pos = a.position();
-        %(call)s
-    } else if dir == 0 {
-        a.emit_u32(%(fill)s);
-        let l = a.create_label();
-        pos = a.position();
-        %(call)s
-        let mut i = 0u32;
-        while i < k { a.emit_u32(%(fill)s); i += 1; }
-        target = a.position();
-        a.bind_label(l);
-    } else {
-        let l = a.create_label();
-        pos = a.position();
-        %(call)s
-        target = pos + 4 * (k as usize);
-        a.set_position(target);
-        a.bind_label(l);
-        a.set_position_end();
-    }
+    a.emit_u32(%(fill)s);
+    let l = a.create_and_bind_label();
+    let target = 4usize;
+    let mut i = 0u32;
+    while i < k { a.emit_u32(%(fill)s); i += 1; }
+    let pos = a.position();
+    %(call)s
+    a.emit_u32(%(fill)s);
+    (a.finalize(1).code(), pos, target)
+}
+pub fn run_%(n)s_fwd(%(sig)s) -> (Vec<u8>, usize, usize) {
+    let mut a = AssemblerArm64::new();
+    a.emit_u32(%(fill)s);
+    let l = a.create_label();
+    let pos = a.position();
+    %(call)s
+    let mut i = 0u32;
+    while i < k { a.emit_u32(%(fill)s); i += 1; }
+    let target = a.position();
+    a.bind_label(l);
+    a.emit_u32(%(fill)s);
+    (a.finalize(1).code(), pos, target)
+}
+pub fn run_%(n)s_far(%(sig)s) -> (Vec<u8>, usize, usize) {
+    let mut a = AssemblerArm64::new();
+    let l = a.create_label();
+    let pos = a.position();
+    %(call)s
+    let target = pos + 4 * (k as usize);
+    a.set_position(target);
+    a.bind_label(l);
+    a.set_position_end();
     a.emit_u32(%(fill)s);
     (a.finalize(4).code(), pos, target)
 }
-pub fn post_%(n)s(code: &[u8], pos: usize, target: usize, %(sig)s) -> bool {
+pub fn post_%(n)s(code: &[u8], pos: usize, target: usize, two_slots: bool, %(sig)s) -> bool {
     if pos %% 4 != 0 || code.len() %% 4 != 0 || pos + 4 > code.len() { return false; }
     let w0 = word_at(code, pos / 4);
     let w1 = if pos + 8 <= code.len() { Some(word_at(code, pos / 4 + 1)) } else { None };
@@ -299,9 +307,9 @@ def emit_label_harnesses(m):
     a2 = (args + ", " if args else "")
     o = []
     names = []
-    for hk, d, kdom, uw, tier in (("fwd", 0, "k <= %d" % NEAR, NEAR + 8, "thorough"),
-                                  ("bwd", 1, "k <= %d" % NEAR, NEAR + 8, "thorough"),
-                                  ("far", 2, "k < (1u32 << 29)", 8, "quick")):
+    for hk, two, kdom, uw, tier in (("fwd", "true", "k <= %d" % NEAR, NEAR + 4, "thorough"),
+                                    ("bwd", "false", "k <= %d" % NEAR, NEAR + 4, "thorough"),
+                                    ("far", "true", "k < (1u32 << 29)", 8, "quick")):
         o.append("""#[kani::proof]
 #[kani::unwind(%(uw)d)]
 fn %(hk)s__%(n)s() {
@@ -309,11 +317,11 @@ fn %(hk)s__%(n)s() {
     let k: u32 = kani::any();
     kani::assume(%(kdom)s);
     kani::assume(legal_%(n)s(%(args)s) && contract_%(n)s(%(args)s));
-    let (code, pos, target) = run_%(n)s(%(a2)s%(d)d, k);
+    let (code, pos, target) = run_%(n)s_%(hk)s(%(a2)sk);
     kani::cover!(true, "VACUITY call returned");
-    assert!(post_%(n)s(&code, pos, target, %(a2)s%(d)d, k), "POST branch reaches the bound label");
+    assert!(post_%(n)s(&code, pos, target, %(two)s, %(a2)sk), "POST branch reaches the bound label");
 }
-""" % {"uw": uw, "hk": hk, "n": m.name, "decl": decl_symbolic(m), "kdom": kdom, "args": args, "a2": a2, "d": d})
+""" % {"uw": uw, "hk": hk, "n": m.name, "decl": decl_symbolic(m), "kdom": kdom, "args": args, "a2": a2, "two": two})
         names.append(("%s__%s" % (hk, m.name), m.name, hk, tier))
     return "\n".join(o), names
 
@@ -355,13 +363,13 @@ def emit_dispatch(methods):
             %(lets)s
             let dir = a[%(i0)d] as u8;
             let k = a[%(i1)d] as u32;
-            // natively the far case is replayed with REAL filler words (dir 2 -> 0)
-            let dir = if dir == 2 { 0 } else { dir };
+            // natively the far case is replayed with REAL filler words (dir 2 -> forward)
             let mut r = Report { method: name.to_string(), kind: kind.to_string(), args: a.to_vec(), refused: false, panic_msg: String::new(),
                 legal: legal_%(n)s(%(args)s), contract: contract_%(n)s(%(args)s), words: Vec::new(), ok: false, expected: None, focus: 0, note: String::new() };
-            match catch_unwind(|| run_%(n)s(%(a2)sdir, k)) {
+            let res = if dir == 1 { catch_unwind(|| run_%(n)s_bwd(%(a2)sk)) } else if dir == 3 { catch_unwind(|| run_%(n)s_far(%(a2)sk)) } else { catch_unwind(|| run_%(n)s_fwd(%(a2)s if dir == 2 { k.saturating_sub(%(slots)d) } else { k })) };
+            match res {
                 Ok((code, pos, target)) => {
-                    r.ok = post_%(n)s(&code, pos, target, %(a2)sdir, k);
+                    r.ok = post_%(n)s(&code, pos, target, dir != 1, %(a2)sk);
                     r.focus = pos;
                     r.words.push(word_at(&code, pos / 4));
                     if pos + 8 <= code.len() { r.words.push(word_at(&code, pos / 4 + 1)); }
@@ -370,7 +378,7 @@ def emit_dispatch(methods):
                 Err(e) => { r.refused = true; r.panic_msg = msg(e); }
             }
             Some(r)
-        }""" % {"n": m.name, "cnt": n + 2, "lets": lets, "args": m.args(), "a2": a2, "i0": n, "i1": n + 1})
+        }""" % {"n": m.name, "cnt": n + 2, "lets": lets, "args": m.args(), "a2": a2, "i0": n, "i1": n + 1, "slots": int(m.fam.get("slots", 1))})
     o.append("        _ => None,\n    }\n}\n")
     # boundary tuples for the oracle validation
     o.append("pub fn tuples() -> Vec<(&'static str, Vec<i128>)> {\n    let mut v: Vec<(&'static str, Vec<i128>)> = Vec::new();")
